@@ -74,6 +74,18 @@ func (p *Prog) WhoCalls(pat string) []Site {
 		for _, in := range allInstrs(fn) {
 			if c := callCommon(in); c != nil && pp.Match(CalleeFullName(c)) {
 				out = append(out, Site{fn, in})
+				continue
+			}
+			// thorough tier: dynamic call sites that value flow resolves to a matching function
+			if p.Dyn != nil {
+				if ci, ok := in.(ssa.CallInstruction); ok {
+					for _, cal := range p.Dyn[ci] {
+						if pp.Match(funcFullName(cal)) {
+							out = append(out, Site{fn, in})
+							break
+						}
+					}
+				}
 			}
 		}
 	}
@@ -135,4 +147,18 @@ func (c *Ctx) OnlyIn(detail string, sites []Site, floor int, allowed ...string) 
 		ok := al[key] || al[root]
 		c.Report(s.Fn, detail, c.InstrPos(s.In), ok, "allowed: "+strings.Join(allowed, ", "))
 	}
+}
+
+// funcFullName renders a function the way CalleeFullName renders a static callee.
+func funcFullName(f *ssa.Function) string {
+	if o := f.Origin(); o != nil {
+		f = o
+	}
+	name := f.String()
+	if obj := f.Object(); obj != nil {
+		if fo, ok := obj.(*types.Func); ok {
+			name = fo.FullName()
+		}
+	}
+	return strings.ReplaceAll(name, modPath+"/", "")
 }
